@@ -337,4 +337,51 @@ theorem scaling_tall_matrix_counterexample :
 
 end scaling
 
+/-! ## 5. Input guards: the model of `_check_firm_inputs` / `_check_risk_matrix_score_inputs` raises exactly outside the
+documented domains (`Spec.Firm.firmDomain`, `Spec.Firm.rmDomain`): 0 < α < 1 with BOTH boundaries rejected, every weight
+value > 0 (NaN entries allowed), discount distance ≥ 0 (0 and +∞ accepted), at least one threshold, as many weights as
+thresholds, `threshold_assignment` ∈ {"upper", "lower"}; forecast probabilities in [0, 1], observations in {0, 1}, probability
+thresholds strictly inside (0, 1).  (The model's guard is tied to the implementation by the harness on a boundary grid.) -/
+section guards
+open SV.Model.Firm (firmRaises rmRaises)
+
+/-- `firm` raises ⇔ the parameters are outside the documented domain -/
+theorem firm_guard_iff_domain (nT nW : Nat) (alpha : Fl) (ws : List Fl) (d : Fl) (mode : String)
+    (ha : alpha ≠ nan) (hd : d ≠ nan) :
+    firmRaises nT nW alpha ws d mode = !firmDomain nT nW alpha ws d mode := by
+  unfold firmRaises firmDomain modeOk
+  rw [alpha_guard alpha ha, disc_guard d hd, any_not_all ws _ weightOk weight_guard]
+  have h1 : decide (nT < 1) = !decide (1 ≤ nT) := by
+    by_cases h : 1 ≤ nT
+    · simp [h]; omega
+    · simp [h]; omega
+  have h2 : (nT == nW) = decide (nT = nW) := by
+    by_cases h : nT = nW <;> simp [h]
+  rw [h1, h2]
+  simp only [Bool.not_and]
+
+example : (fin 1 : Fl) ≠ nan ∧ (fin 0 : Fl) ≠ nan := by constructor <;> intro h <;> cases h
+
+/-- the boundaries themselves: α = 0 and α = 1 are rejected, d = 0 and weights > 0 accepted, a single 0 weight rejected -/
+theorem firm_guard_boundaries :
+    firmRaises 1 1 (fin 1) [fin 1] (fin 0) "lower" = true ∧ firmRaises 1 1 (fin 0) [fin 1] (fin 0) "upper" = true ∧
+    firmRaises 1 1 (fin (1/2)) [fin 1] (fin 0) "lower" = false ∧ firmRaises 2 2 (fin (1/2)) [fin 1, fin 0] (fin 0) "lower" = true ∧
+    firmRaises 1 1 (fin (1/2)) [fin 1] (fin (-1/1024)) "lower" = true ∧ firmRaises 0 0 (fin (1/2)) [] (fin 0) "lower" = true := by
+  decide +kernel
+
+/-- `risk_matrix_score` raises ⇔ a value is outside the documented domain -/
+theorem rm_guard_iff_domain (fcsts obs probs : List Fl) (mode : String) (hp : ∀ p ∈ probs, p ≠ nan) :
+    rmRaises fcsts obs probs mode = !rmDomain fcsts obs probs mode := by
+  unfold rmRaises rmDomain modeOk
+  simp only [valid_any]
+  rw [any_or_any fcsts, any_not_all fcsts _ probOk prob_guard, any_not_all obs _ binaryOk binary_guard]
+  rw [Bool.or_assoc (!fcsts.all probOk || !obs.all binaryOk), any_or_any probs,
+    any_not_all_mem probs _ probThresholdOk (fun x hx => thr_guard x (hp x hx))]
+  simp only [Bool.not_and, Bool.or_assoc]
+
+example : ∀ p ∈ [(fin (1/2) : Fl), fin 1], p ≠ nan := by
+  intro p hp; simp at hp; rcases hp with rfl | rfl <;> intro h <;> cases h
+
+end guards
+
 end SV.Props.C12
